@@ -25,7 +25,19 @@ CaseTags(ev) ==
                            THEN {"branch:" \o CountKey(c)} ELSE {}
                     : c \in Counts(a.branches, a.ty) }
 
+\* L2: what the generated accessor rendered at run time for range key j of a packed project.
+\*   n   : the count as an integer (i8 / u8, every value of the type)     idx : the count as an anchor (other types)
+RenderTags(ev) ==
+    LET a == Cases[ev.case].abs.items[ev.j]
+        sel == IF ev.mode = "int" THEN SelectInt(a.branches, ev.n, a.ty) ELSE Select(a.branches, ev.idx)
+        shown == IF ev.mode = "int" THEN IntSyms(ev.n) ELSE Disp[a.ty][ev.idx] IN
+    IF ev.outcome # "Ok" THEN {"render-outcome:" \o ev.outcome}
+    ELSE IF sel = 0 THEN {}          \* no branch and no fallback: the property is silent (integer ranges may omit the fallback)
+    ELSE IF ev.out = BranchTag(a.branches[sel].tag) \o <<"COLON">> \o shown THEN {}
+    ELSE {"run-time-branch:" \o ev.flav}
+
 Tags(ev) == IF ev.ev = "Load" THEN CaseTags(ev)
+            ELSE IF ev.ev = "Render" THEN RenderTags(ev)
             ELSE IF ev.ev = "Crash" THEN {"crash:" \o ev.outcome}
             ELSE {}
 
